@@ -1377,6 +1377,59 @@ func ccRaceNegativeControl() error {
 	return errors.New("negative control: the race detector did not stop the process (binary built without -race?)")
 }
 
+// probe (not part of the check): the process-wide validator table vm.preInputRegexStr.  Sequentially: the
+// second engine's AddValidInput fails ("already registered": every engine counts its keys from 0) while
+// the first engine's pattern is applied by EVERY engine of the process.  Concurrently: one goroutine builds
+// per-request engines and calls AddValidInput, the other serves inputs that reach the custom validators —
+// under -race this ends with DATA RACE.  The property's set-up (and the drivers) call it before serving only.
+func ccProbeAddValidInput() error {
+	g := ccSeedApp()
+	sh := ccMakeShared(g.app)
+	s0, err := ccNewSession(g.app, g.cfg, sh, 0, false)
+	if err != nil {
+		return err
+	}
+	s1, err := ccNewSession(g.app, g.cfg, sh, 1, false)
+	if err != nil {
+		return err
+	}
+	ctx := context.Background()
+	_, e0 := s1.en.Exec(ctx, []byte("%x"))
+	fmt.Printf("probe: before any AddValidInput, engine 1 Exec(%%x) error: %v\n", e0)
+	s1b, _ := ccNewSession(g.app, g.cfg, sh, 1, false)
+	err0 := s0.en.AddValidInput("^%.*")
+	err1 := s1b.en.AddValidInput("^#.*")
+	_, e1 := s1b.en.Exec(ctx, []byte("%x"))
+	_, e2 := s1b.en.Exec(ctx, []byte("#x"))
+	fmt.Printf("probe: engine 0 AddValidInput(^%%.*) = %v; engine 1 AddValidInput(^#.*) = %v\n", err0, err1)
+	fmt.Printf("probe: engine 1 Exec(%%x) error: %v (engine 0's pattern applies to engine 1)\n", e1)
+	fmt.Printf("probe: engine 1 Exec(#x) error: %v (engine 1's own pattern was dropped)\n", e2)
+	var wg sync.WaitGroup
+	wg.Add(2)
+	go func() {
+		defer wg.Done()
+		for i := 0; i < 200; i++ {
+			s, _ := ccNewSession(g.app, g.cfg, sh, 2, false)
+			for j := 0; j <= i+1; j++ { // the (i+2)th call of an engine uses a key nobody has registered yet
+				s.en.AddValidInput("^%.*")
+			}
+		}
+	}()
+	go func() {
+		defer wg.Done()
+		for i := 0; i < 200; i++ {
+			s, _ := ccNewSession(g.app, g.cfg, sh, 3, false)
+			hx.Recover(func() {
+				s.en.Exec(ctx, []byte(""))
+				s.en.Exec(ctx, []byte("%1"))
+			})
+		}
+	}()
+	wg.Wait()
+	fmt.Println("probe: concurrent AddValidInput / Exec finished without a race report")
+	return nil
+}
+
 func ccRunRace(o opts) error {
 	if runtime.GOMAXPROCS(0) < 4 {
 		runtime.GOMAXPROCS(4)
@@ -1395,6 +1448,9 @@ func ccRunRace(o opts) error {
 	w.Count(fmt.Sprintf("race_detector_enabled_%v", ccRaceEnabled()))
 	if o.replay == "selftest:shared-resource" {
 		return ccRaceNegativeControl()
+	}
+	if o.replay == "probe:addvalidinput" {
+		return ccProbeAddValidInput()
 	}
 	reps := 5
 	if o.tier == "thorough" {
